@@ -99,6 +99,8 @@ class _Progress:
         self._cur: Optional[Func] = None
         self._inline: List[str] = []
         self._allcalls: Optional[Set[Tuple[str, bool]]] = None
+        self.touched_opaque = False
+        self.opaque = self._closure({n for n, m in self.methods.items() if any(self._jump(x, m) == "opaque" for x in m.own_nodes())})
         if self.cursors:
             self._fixpoint()
 
@@ -197,11 +199,32 @@ class _Progress:
     def _restore(self, x: ast.AST, m: Func) -> bool:
         return isinstance(x, ast.Assign) and all(norm(t) in self.cursors for t in x.targets) and isinstance(x.value, ast.Name) and x.value.id in self._saved_locals(m)
 
+    def _jump(self, x: ast.AST, m: Func) -> Optional[str]:
+        """`self.pos = E` that is neither a reset of the entry point nor a restore of a saved cursor:
+        "forward" (E provably beyond the cursor), "stay" (provably not before it) or "opaque"."""
+        if not (isinstance(x, ast.Assign) and len(x.targets) == 1 and norm(x.targets[0]) == "self.pos") or self._restore(x, m):
+            return None
+        if m.name == "__init__" or (m.name == "parse" and isinstance(x.value, ast.Constant)):
+            return None  # initialisation / the entry point's reset
+        il = _IndexLoop(self.ctx, m, self.methods)
+        env: Env = {"self.pos": _Rel(GE, False)}
+        # locals with a single definition, in source order before the jump
+        for n in sorted((n for n in m.own_nodes() if isinstance(n, ast.Assign) and len(n.targets) == 1 and isinstance(n.targets[0], ast.Name) and n.lineno < x.lineno), key=lambda n: n.lineno):
+            nm = n.targets[0].id
+            if sum(1 for k in m.own_nodes() if isinstance(k, (ast.Assign, ast.AugAssign)) and any(isinstance(t, ast.Name) and t.id == nm for t in (k.targets if isinstance(k, ast.Assign) else [k.target]))) == 1:
+                env[nm] = il.val(n.value, env)
+        r = il.val(x.value, env)
+        if r.neg or r.rel == UNK:
+            return "opaque"
+        return "forward" if r.rel == GT else "stay"
+
     def _has_unbalanced_rollback(self, m: Func) -> bool:
         for x in m.own_nodes():
             if self._cursor_write(x) and not self._forward_step(x) and not self._restore(x, m):
                 if m.name == "parse" and isinstance(x, ast.Assign) and isinstance(x.value, ast.Constant):
                     continue  # the entry point resets the cursor before it starts
+                if self._jump(x, m) is not None:
+                    continue  # an absolute jump: judged (or declared opaque) where it is executed
                 return True
         return False
 
@@ -230,6 +253,8 @@ class _Progress:
             sink.add((name, st.ne))
         if self._allcalls is not None:
             self._allcalls.add((name, st.ne))
+        if name in self.opaque:
+            self.touched_opaque = True
         if name in self.may_rollback:
             return _RESET
         if name in self.consumers or (name in self.consumers_ne and st.ne):
@@ -659,7 +684,17 @@ class _Progress:
         before = st
         st = self.expr(value, st, sink)
         if self._cursor_write(s):
-            return {(FALL, _consumed(st) if self._forward_step(s) else _RESET, "")}
+            if self._forward_step(s):
+                return {(FALL, _consumed(st), "")}
+            j = self._jump(s, self._cur) if self._cur is not None else None
+            if j == "forward":
+                return {(FALL, _consumed(st), "")}
+            if j == "stay":
+                return {(FALL, _maybe_moved(st), "")}
+            if j == "opaque":
+                self.touched_opaque = True
+                return {(FALL, _maybe_moved(st), "")}
+            return {(FALL, _RESET, "")}
         if isinstance(s, (ast.Assign, ast.AnnAssign)):
             targets = s.targets if isinstance(s, ast.Assign) else [s.target]
             for t in targets:
@@ -753,6 +788,8 @@ class _IndexLoop:
     def val(self, e: Optional[ast.AST], env: Env) -> _Rel:
         if isinstance(e, ast.Name):
             return env.get(e.id, _R_UNK)
+        if isinstance(e, ast.Attribute) and norm(e) in env:
+            return env[norm(e)]
         if isinstance(e, ast.BinOp) and isinstance(e.op, ast.Add):
             for a, b in ((e.left, e.right), (e.right, e.left)):
                 if isinstance(b, ast.Constant) and type(b.value) is int:
@@ -767,7 +804,7 @@ class _IndexLoop:
                     return _R_UNK if r.neg else r
             return _R_UNK
         if isinstance(e, ast.IfExp):
-            a, b = self.val(e.body, env), self.val(e.orelse, env)
+            a, b = self.val(e.body, self._refine(e.test, env, True)), self.val(e.orelse, self._refine(e.test, env, False))
             return _Rel(min(a.rel, b.rel), a.neg or b.neg)
         if isinstance(e, ast.Call):
             fn = e.func
@@ -979,6 +1016,9 @@ def rule_frontend_progress(ctx, rep, rid: str, modules: Tuple[str, ...] = FRONT_
                 key = f"{lex.name}.next_token:consumes-or-end-token"
                 if "next_token" in lpg.eof_or or "next_token" in lpg.consumers:
                     rep.ok(rid, key)
+                elif "next_token" in lpg.opaque:
+                    rep.ok(rid, key, {"kind": "moves the cursor by an absolute jump to a computed offset: not judged"})
+                    n_unjudged += 1
                 else:
                     rep.bad(rid, key, f"{lex.name}.next_token can return a token other than the end marker without having moved the scanner: the parser's _advance then makes no progress", lpg.methods["next_token"].loc)
             idx = {id(l): v for m in meths for l, v in index_loops(m)}
@@ -997,6 +1037,7 @@ def rule_frontend_progress(ctx, rep, rid: str, modules: Tuple[str, ...] = FRONT_
                             continue
                     # judged by the cursor
                     pg._cur = m
+                    pg.touched_opaque = False
                     test = None if (isinstance(loop.test, ast.Constant) and loop.test.value is True) else loop.test
                     ins = pg.refine(test, START, True, None) if test is not None else [START]
                     body = pg.block(loop.body, ins)
@@ -1004,6 +1045,10 @@ def rule_frontend_progress(ctx, rep, rid: str, modules: Tuple[str, ...] = FRONT_
                     stuck = [(k, s) for k, s, _ in body if k in (FALL, CONT) and not s.c]
                     if not stuck:
                         rep.ok(rid, key, {"kind": "cursor"})
+                    elif pg.touched_opaque:
+                        # the body moves the cursor by an absolute jump whose target this analysis cannot order
+                        rep.ok(rid, key, {"kind": "cursor moved by an absolute jump to a computed offset: not judged"})
+                        n_unjudged += 1
                     elif idx_why is not None:
                         rep.bad(rid, key, f"{m.qual}: in `while {short(loop.test, 50)}` {idx_why}: the loop can spin forever on some input", loc)
                     elif not any(isinstance(x, ast.Attribute) and norm(x).startswith("self.") and (norm(x) in pg.cursors or x.attr in pg.may_consume or x.attr in pg.accessors or x.attr in pg.end_methods) for part in [loop.test] + loop.body for x in ast.walk(part)):
@@ -1064,7 +1109,10 @@ def rule_frontend_progress(ctx, rep, rid: str, modules: Tuple[str, ...] = FRONT_
                         seen.add(x)
                         work.extend(first_of(x))
                 key = f"{m.qual}:left-recursion"
-                if path_found:
+                if path_found and (m.name in pg.opaque or any(x[0] in pg.opaque for x in seen)):
+                    rep.ok(rid, key, {"kind": "the cycle passes a function that moves the cursor by an absolute jump: not judged"})
+                    n_unjudged += 1
+                elif path_found:
                     rep.bad(rid, key, f"{m.qual} can call itself again (directly or through other parse functions) before any input was consumed: unbounded recursion on some input", m.loc)
                 else:
                     rep.ok(rid, key)
